@@ -253,32 +253,20 @@ theorem trail_scan_partial (pat : Line → Option Bool) (lines : List Line) (sto
       cur ≤ b ∧ (b ≤ hi ∨ b = cur) ∧ (∀ i, cur ≤ i → i < b → reEmptyLineOrCont (lineAt lines i) = true)) :=
   ⟨scanDown_spec pat lines stop fuel cur cl, spaceDown_spec lines hi fuel cur⟩
 
-/-- `triviaParams_total` (every value accepted by `_check_opt_trivia` is mapped by `get_trivia_params` to values the
-trivia functions handle) is FALSE of the code: the empty string is accepted and mapped to `comments = ''`. -/
-theorem triviaParams_total_false :
-    ¬ (∀ t neg, checkOptTrivia t = true →
-        ∃ p, getTriviaParams t neg = some p ∧ legalLead p.leadC = true ∧ legalTrail p.trailC = true) := by
-  intro h
-  obtain ⟨p, hp, hl, _⟩ := h (.single (.str [])) false (by decide)
-  have : getTriviaParams (.single (.str [])) false
-      = some ⟨.str [], .bool false, false, .str "line".toList, .bool false, false⟩ := by decide
-  rw [this] at hp; cases hp
-  revert hl; decide
+/-- **triviaParams_total**: every value accepted by `_check_opt_trivia` (booleans, integers, the words
+`all|block|none|(line)` with an optional `+`/`-` and digits, the bare `+…`/`-…` shorthand; single or in a 0/1/2-tuple) is
+mapped by `get_trivia_params`, for either value of `neg`, to `comments` values that `leading_trivia` /
+`trailing_trivia` handle (`none|all|block|int`, trailing also `line`).  Holds since option strings must be non-empty
+(before that repair `''` was accepted and mapped to `comments = ''`). -/
+theorem triviaParams_total (t : TrivOpt) (neg : Bool) (h : checkOptTrivia t = true) :
+    ∃ p, getTriviaParams t neg = some p ∧ legalLead p.leadC = true ∧ legalTrail p.trailC = true :=
+  getTriviaParams_total t neg h
 
-/-- Partial totality: booleans, integers and the documented words (with the shorthand `+` / `-` and small numeric
-suffixes), single or in tuples, are mapped to legal parameters. -/
-theorem triviaParams_total_partial :
-    ∀ t ∈ ([.single (.bool true), .single (.bool false), .single (.int 3), .single (.int (-1)),
-        .single (.str "all".toList), .single (.str "block".toList), .single (.str "none".toList),
-        .single (.str "all+".toList), .single (.str "block+2".toList), .single (.str "none-".toList),
-        .single (.str "+".toList), .single (.str "-1".toList), .single (.str "all-12".toList),
-        .tuple [], .tuple [.str "line".toList], .tuple [.str "line+1".toList], .tuple [.bool false],
-        .tuple [.str "all".toList, .str "all".toList], .tuple [.str "none".toList, .str "block+".toList],
-        .tuple [.int 2, .int 9], .tuple [.bool true, .str "-".toList], .tuple [.str "+3".toList, .str "none-2".toList]]
-        : List TrivOpt), ∀ neg : Bool,
-      checkOptTrivia t = true ∧
-      ∃ p, getTriviaParams t neg = some p ∧ legalLead p.leadC = true ∧ legalTrail p.trailC = true := by
-  decide
+example : checkOptTrivia (.single (.str "all+3".toList)) = true ∧ checkOptTrivia (.tuple [.str "-".toList, .str "line+".toList]) = true
+    ∧ checkOptTrivia (.single (.str [])) = false ∧ checkOptTrivia (.tuple [.str []]) = false
+    ∧ checkOptTrivia (.single (.str "line".toList)) = false := by decide
+example : getTriviaParams (.single (.str "all+3".toList)) false
+    = some ⟨.str "all".toList, .int 3, false, .str "line".toList, .bool false, false⟩ := by decide
 
 /-! ### non-vacuity (trivia) -/
 
